@@ -1997,7 +1997,8 @@ The what argument tells us what sort of state is expected (allowed values are de
             sprod = self.findSetupProduct(product.name)
 
             if sprod and sprod.version and product.version:
-                if product.version == sprod.version or product.dir == sprod.dir: # already setup
+                if product.version == sprod.version or \
+                       (product.dir == sprod.dir and product.dir not in (None, "none")): # already setup
                     if recursionDepth == 0: # top level should be resetup if that's what they asked for
                         pass
                     elif self.force and not implicitProduct: # force means do it!; so do it.
